@@ -134,6 +134,18 @@ example :
       = [[91, 98, 93], sA] := ⟨rfl, rfl⟩
 example : (Args.step stAB (.extendSlice (some (-1)) none)).1.lst = [gA, gB, gB] := rfl
 
+/-- **Extending an argument list by itself doubles it**, as `l.extend(l)` does for a Python
+list: no exception, `a.lst ++ a.lst` (the same objects again), invariant kept – and it is the
+same as extending by the full slice `a[:]`. (Before the repair "TexArgs.extend(itself) never
+terminated" the implementation looped over the list it was growing; a regression shows up in
+the correspondence run as a hang.) -/
+theorem extend_by_self_refines (a : ArgsSt) (ha : Inv a) :
+    (∃ a', Args.step a .extendSelf = (a', .none) ∧ a'.lst = a.lst ++ a.lst ∧ Inv a') ∧
+    Args.step a .extendSelf = Args.step a (.extendSlice none none) := by
+  rcases extendSelf_char a ha with ⟨a', h1, h2, _, h4, _⟩
+  exact ⟨⟨a', h1, h2, h4⟩, extendSelf_eq_extendSlice a ha⟩
+example : (Args.step stAB .extendSelf).1.lst = [gA, gB, gA, gB] := rfl
+
 /-- **One step of a history over two argument lists refines two Python lists**: operations on
 either list (`step_refines`) and extending either by the other. -/
 theorem stepPair_refines (s : Args.PairSt) (op : Args.PairOp) (h : InvPair s) :
@@ -255,6 +267,10 @@ theorem failed_ops_keep_state (st : ArgsSt) (op : ArgsOp) (h : Inv st)
   | extendSlice lo hi =>
     simp only [Args.step] at herr
     rcases extendSlice_char st lo hi h with ⟨st', hs, _⟩
+    rw [hs] at herr; simp [isError] at herr
+  | extendSelf =>
+    simp only [Args.step] at herr
+    rcases extendSelf_char st h with ⟨st', hs, _⟩
     rw [hs] at herr; simp [isError] at herr
 -- remove(' ') on TexArgs(['{a}', ' ', '{b}']): ValueError, `.all` keeps its blank
 example : Args.step stAB (.remove (.str [32])) = (stAB, .valueError) := rfl
